@@ -263,7 +263,7 @@ def buffer_views(ctx, rep, rule: str, classes: list[str]) -> None:
 
 def alignment_arithmetic(ctx, rep, rule: str, classes: list[str]) -> None:
     """The aligned size expression, interpreted on a complete residue system: smallest multiple of the alignment >= size."""
-    from ..guards import Interp, Unsupported
+    from ..guards import Interp, Unsupported, repo_pure_calls
 
     repo = ctx.repo
     for cq in classes:
@@ -291,7 +291,7 @@ def alignment_arithmetic(ctx, rep, rule: str, classes: list[str]) -> None:
             bad = []
             try:
                 for sz in range(0, 4 * aval + 2):
-                    got = Interp({var: sz, aname: aval}).ev(comps[0].value.elt)
+                    got = Interp({var: sz, aname: aval}, call_hook=repo_pure_calls(repo, fi.module)).ev(comps[0].value.elt)
                     want = -(-sz // aval) * aval
                     if got != want:
                         bad.append((sz, got, want))
